@@ -213,13 +213,13 @@ def vclass(p, v, cls):
     return cls
 
 
-def exercise(ctx, prs, label, rng, budget, none_first=False):
+def exercise(ctx, prs, label, rng, budget, none_first=False, zero_first=False, world=None):
     """assign properties on the objects of one deck; -> {(path, name): reading} for the re-open comparison"""
     table = oplab.prop_table()
     by_kind = {}
     for p in table:
         by_kind.setdefault(p.kind, []).append(p)
-    world = oplab.discover(prs)
+    world = world or oplab.discover(prs)
     recorded = {}
     todo = []
     for kind, plist in by_kind.items():
@@ -232,6 +232,14 @@ def exercise(ctx, prs, label, rng, budget, none_first=False):
         # systematic: None assigned to every property that documents it, on every object, while the object is still as it
         # was built (nothing explicit to remove: the assignment must be a no-op on everything else the element holds)
         todo = [t for t in todo if t[0].none_ok]
+    elif zero_first:
+        # systematic: 0 assigned to every numeric property of every object while the object is still as the file gave it
+        # (on a deck without optional empty containers: the setter's "nothing there yet" path with the one value that is
+        # falsy); a property that refuses 0 must leave its reading alone
+        def numeric(p):
+            vs = [p.gen(random.Random(i)) for i in range(4)]
+            return all(isinstance(v, (int, float)) and not isinstance(v, bool) and not hasattr(v, "xml_value") and not hasattr(v, "name") for v in vs)
+        todo = [t for t in todo if numeric(t[0])]
     else:
         todo = todo + rng.sample(todo, len(todo) // 2)
     rng.shuffle(todo)
@@ -253,14 +261,17 @@ def exercise(ctx, prs, label, rng, budget, none_first=False):
         sibs = [q.name for q in by_kind[p.kind] if q.name != p.name and q.name not in COUPLED.get((p.kind, p.name), set())
                 and not (p.name in ("text",) or q.name in ("text",))]
         r = 0.0 if none_first else rng.random()
-        if r < 0.15 and p.none_ok:
+        if zero_first:
+            v, cls = type(p.gen(random.Random(0)))(0), "zero"
+        elif r < 0.15 and p.none_ok:
             v, cls = None, "none"
         elif r < 0.3 and p.bad is not None:
             v, cls = p.bad(rng), "bad"
         else:
             v, cls = p.gen(rng), "in"
         obs_skip = OBSERVE_COUPLED.get((p.kind, p.name), set())
-        obs_before = observe(prs, path, p.kind, obs_skip)
+        # (looking at an object's parts creates containers such as a:tcPr: not before a 0-first assignment)
+        obs_before = None if zero_first else observe(prs, path, p.kind, obs_skip)
         before_self = reading(obj, p.name)
         before = {n: reading(obj, n) for n in sibs}
         case = {"deck": label, "object": path, "property": p.name, "value": repr(v)[:80], "class": cls}
@@ -566,6 +577,85 @@ def powerpoint_states(prs, rng):
     return n
 
 
+def stale_handles(ctx):
+    """two long-lived proxies for the same fill (colour): what is done through one must be what a newly obtained proxy
+    reads, whatever was done through the other in between (a proxy that remembers which kind of fill it last saw)"""
+    import itertools
+
+    from pptx.dml.color import RGBColor
+    from pptx.enum.dml import MSO_COLOR_TYPE, MSO_FILL, MSO_THEME_COLOR
+
+    KIND = {"solid": MSO_FILL.SOLID, "background": MSO_FILL.BACKGROUND, "gradient": MSO_FILL.GRADIENT, "patterned": MSO_FILL.PATTERNED}
+    prs = build_deck()
+    s1, s2 = prs.slides[1], prs.slides[2]
+    shape = s1.shapes[0]
+    tbl = [sh for sh in s1.shapes if getattr(sh, "has_table", False)][0].table
+    chart = [sh for sh in s2.shapes if getattr(sh, "has_chart", False)][0].chart
+    fills = [
+        ("autoshape.fill", lambda: shape.fill),
+        ("autoshape.line.fill", lambda: shape.line.fill),
+        ("cell.fill", lambda: tbl.cell(1, 1).fill),
+        ("run.font.fill", lambda: shape.text_frame.paragraphs[0].runs[0].font.fill),
+        ("slide.background.fill", lambda: s1.background.fill),
+        ("series.format.fill", lambda: chart.plots[0].series[0].format.fill),
+        ("chart-title font fill", lambda: chart.chart_title.text_frame.paragraphs[0].font.fill if chart.has_title else None),
+    ]
+    n = 0
+    for name, get in fills:
+        for k1, k2, k3 in itertools.product(KIND, KIND, KIND):
+            try:
+                h1 = get()
+                if h1 is None:
+                    break
+                getattr(h1, k1)()
+                h2 = get()
+                getattr(h2, k2)()
+                getattr(h1, k3)()
+                rgb = RGBColor(0x10 + n % 200, 0x20, 0x30)
+                if k3 in ("solid", "patterned"):
+                    h1.fore_color.rgb = rgb
+                fresh = get()
+                got = fresh.type
+                col = fresh.fore_color.rgb if k3 in ("solid", "patterned") else None
+            except Exception as e:  # noqa
+                ctx.fail("stale-handle:" + name + ":raised", f"{name}: {k1}() through proxy 1, {k2}() through proxy 2, {k3}() through proxy 1 raised {type(e).__name__}: {str(e)[:120]}",
+                         {"object": name, "history": [k1, k2, k3]})
+                continue
+            n += 1
+            ctx.case(key=("stale", name, k1, k2, k3))
+            if got != KIND[k3] or (col is not None and col != rgb):
+                ctx.fail("stale-handle:" + name, f"{name}: {k1}() through proxy 1, {k2}() through a second proxy, then {k3}()" + (f" and fore_color.rgb = {rgb}" if col is not None else "")
+                         + f" through proxy 1: a newly obtained proxy reads type {got} colour {col}", {"object": name, "history": [k1, k2, k3]})
+    colors = [
+        ("run.font.color", lambda: shape.text_frame.paragraphs[0].runs[0].font.color),
+        ("autoshape.line.color", lambda: shape.line.color),
+        ("autoshape.fill.fore_color", lambda: (shape.fill.solid(), shape.fill.fore_color)[1]),
+    ]
+    CK = ["rgb", "theme"]
+    for name, get in colors:
+        for k1, k2, k3 in itertools.product(CK, CK, CK):
+            try:
+                def put(h, k, i):
+                    if k == "rgb":
+                        h.rgb = RGBColor(i, 0x44, 0x55)
+                    else:
+                        h.theme_color = [MSO_THEME_COLOR.ACCENT_1, MSO_THEME_COLOR.ACCENT_2, MSO_THEME_COLOR.TEXT_1][i % 3]
+                h1 = get(); put(h1, k1, 1)
+                h2 = get(); put(h2, k2, 2)
+                put(h1, k3, 3)
+                fresh = get() if name != "autoshape.fill.fore_color" else shape.fill.fore_color
+                got = (fresh.type, fresh.rgb if k3 == "rgb" else fresh.theme_color)
+                want = (MSO_COLOR_TYPE.RGB, RGBColor(3, 0x44, 0x55)) if k3 == "rgb" else (MSO_COLOR_TYPE.SCHEME, MSO_THEME_COLOR.ACCENT_1)
+            except Exception as e:  # noqa
+                ctx.fail("stale-handle:" + name + ":raised", f"{name}: {k1}, {k2} (second proxy), {k3} raised {type(e).__name__}: {str(e)[:120]}", {"object": name, "history": [k1, k2, k3]})
+                continue
+            ctx.case(key=("stale", name, k1, k2, k3))
+            if got != want:
+                ctx.fail("stale-handle:" + name, f"{name}: set {k1} through proxy 1, {k2} through a second proxy, {k3} through proxy 1: a newly obtained proxy reads {got}, expected {want}",
+                         {"object": name, "history": [k1, k2, k3]})
+    ctx.count("stale-handle-histories", n)
+
+
 def correspond(ctx):
     from pptx import Presentation
 
@@ -600,6 +690,17 @@ def correspond(ctx):
     prs = build_deck()
     rec = exercise(ctx, prs, "generated-deck(None first)", rng, 10**6, none_first=True)
     reopen_check(ctx, prs, "generated-deck(None first)", rec)
+    from harness.props.c12 import bare
+    b = io.BytesIO(); build_deck().save(b)
+    bd, n = bare(b.getvalue())
+    # objects are discovered on ANOTHER instance of the same file: discovery walks fills and text frames, which creates
+    # the very containers this pass wants absent
+    world = oplab.discover(Presentation(io.BytesIO(bd)))
+    prs = Presentation(io.BytesIO(bd))
+    label = f"generated-deck(bare: {n} empty containers removed; 0 first)"
+    rec = exercise(ctx, prs, label, rng, 10**6, zero_first=True, world=world)
+    reopen_check(ctx, prs, label, rec)
+    stale_handles(ctx)
     decks = common.corpus_decks()
     if ctx.quick:
         decks = rng.sample(decks, 14)
